@@ -430,9 +430,8 @@ func (s *Service) restoreFromECPartsByRule(ctx context.Context, cnr cid.ID, pare
 		return object.Object{}, tooManyPartsUnavailableError(rem)
 	}
 
-	pldLen := hdr.PayloadSize()
-
 	if rem == 0 {
+		pldLen := hdr.PayloadSize()
 		if got := islices.TwoDimSliceElementCount(parts[:rule.DataPartNum]); uint64(got) < pldLen {
 			return object.Object{}, fmt.Errorf("sum len of received data parts is less than full len: %d < %d", got, pldLen)
 		}
@@ -448,7 +447,14 @@ func (s *Service) restoreFromECPartsByRule(ctx context.Context, cnr cid.ID, pare
 	for i := range rule.ParityPartNum {
 		partIdx := int(rule.DataPartNum + i)
 		eg.Go(func() error {
-			_, part, err := s.getECPart(gCtx, cnr, parent, rule, ruleIdx, sortedNodes, partIdx)
+			parentHdr, part, err := s.getECPart(gCtx, cnr, parent, rule, ruleIdx, sortedNodes, partIdx)
+			if err == nil && !gotHdr.Swap(true) {
+				// no data part is available, take parent header from the parity one
+				hdr = parentHdr
+			}
+			if err == nil && parentHdr.PayloadSize() == 0 {
+				return errInterrupt
+			}
 			if err != nil {
 				if errors.Is(err, apistatus.ErrObjectAlreadyRemoved) || errors.Is(err, apistatus.ErrObjectAccessDenied) || errors.Is(err, gCtx.Err()) ||
 					errors.As(err, new(*object.SplitInfoError)) {
@@ -476,11 +482,15 @@ func (s *Service) restoreFromECPartsByRule(ctx context.Context, cnr cid.ID, pare
 		return object.Object{}, err
 	}
 
+	if gotHdr.Load() && hdr.PayloadSize() == 0 {
+		return hdr, nil
+	}
+
 	if rem = islices.CountNilsInTwoDimSlice(parts); rem > int(rule.ParityPartNum) {
 		return object.Object{}, tooManyPartsUnavailableError(rem)
 	}
 
-	payload, err := iec.Decode(rule, pldLen, parts)
+	payload, err := iec.Decode(rule, hdr.PayloadSize(), parts)
 	if err != nil {
 		return object.Object{}, fmt.Errorf("decode payload from parts: %w", err)
 	}
